@@ -55,3 +55,9 @@ N("c13-n-eos-nested", "C13", MEM, f"{RS}.receive_nowait",
 # from seeded changes C13/c and C13/d (round 2)
 M("c13-aclose-checkpoint-before-close", "C13", MEM, "MemoryObjectReceiveStream.aclose", "        self.close()", "        await checkpoint()\n        self.close()", ["R13-b"])
 M("c13-anext-closed-is-clean-end", "C13", "abc/_streams.py", "UnreliableObjectReceiveStream.__anext__", "        except EndOfStream:", "        except (EndOfStream, ClosedResourceError):", ["R13-d"])
+
+# from seeded changes C13/e, C13/f (round 3)
+M("c13-statistics-record-fields-swapped", "C13", MEM, "MemoryObjectStreamStatistics",
+  "    open_send_streams: int  #: number of unclosed clones of the send stream\n    open_receive_streams: int  #: number of unclosed clones of the receive stream\n",
+  "    open_receive_streams: int  #: number of unclosed clones of the receive stream\n    open_send_streams: int  #: number of unclosed clones of the send stream\n", ["R13-a"])
+M("c13-pending-cancellation-walk-own-shield-only", "C13", A, "CancelScope._effectively_cancelled", "            if cancel_scope.shield:\n                return False", "            if self.shield:\n                return False", ["R13-e"])
